@@ -107,7 +107,7 @@ def run(ctx):
     ctx.cov["exhaustive"] = True
     ctx.cov["rule"] = ("behaviours: every history of <=3 bulks with <=2 (thorough 3) crashes at every point of the write path (between the file operations "
                        "and with the unsynced suffix kept / dropped / torn) followed by restart and further ingestion, one behaviour per Restart edge of the as-is "
-                       "model; torn lengths are drawn per case from {1,32,33,34,len/2,len-1} bytes, bulk shapes from the seed; after every restart every acked "
+                       "model; torn lengths are drawn per case from {1,32,33,34,len/2,len-1} bytes, bulk shapes from the seed; every second restart is preceded by a start that is cancelled after 0, 1 or 2 replayed meta blocks (AbortedStart); after every restart every acked "
                        "document is searched by its own and by the shared token and fetched byte-exact, unacked bulks must be all-or-nothing. traces: "
                        "%d recorded runs of 24 bulks from 1..4 concurrent writers with real fsync. non-trivial = behaviours with >=1 crash; plus %d long histories (about 500 bulks each, sizes 600/300/900 then >200 bulks of 1-2 documents, restarts in between) checked at every phase end" % (runs, nsoak))
     ctx.assumptions += ["a crash keeps the fsynced prefix of a file and an arbitrary prefix of what was written after it (no reordering inside a file)",
